@@ -246,12 +246,16 @@ class Out:
                 val = helper.uri(val)
             elif 'HASH' == type_:
                 val = self.ser._hash(val)
-            elif hasattr(val, 'cssText'):
-                val = val.cssText
-            elif hasattr(val, 'mediaText'):
-                val = val.mediaText
-            elif val in '+>~,:{;)]/=}' and not alwaysS:
-                self._remove_last_if_S()
+            else:
+                # serialise a nested object only once (hasattr would evaluate
+                # the property, then the access again: exponential in depth)
+                text = getattr(val, 'cssText', None)
+                if text is not None:
+                    val = text
+                elif hasattr(val, 'mediaText'):
+                    val = val.mediaText
+                elif val in '+>~,:{;)]/=}' and not alwaysS:
+                    self._remove_last_if_S()
             # elif type_ in ('Property', cssutils.css.CSSRule.UNKNOWN_RULE):
             #     val = val.cssText
             # elif type_ in ('NUMBER', 'DIMENSION', 'PERCENTAGE') and val == u'0':
